@@ -1,7 +1,7 @@
 //! unit: u17
 //! properties: C17
 //! note: the per-message acceptance tests of the network graph and its staleness pruning: a channel_update / node_announcement replaces stored information only with a strictly newer timestamp, an update above the channel's capacity (or above 21e6 BTC, or for another chain) is refused, and pruning drops exactly the directions older than two weeks and the channels left without a current direction
-//! trusted: R15 (deep slices): NetworkGraph::update_channel_internal, update_node_from_announcement_intern and remove_stale_channels_and_tracking_with_time work on IndexedMaps behind RwLocks with signature checks through secp256k1; the unit extracts, on every run and verbatim, (a) the body of the closure check_update_latest, (b) the body of the closure check_msg_sanity (its two calls of check_update_latest get the message as an explicit argument), (c) the chain-hash test and the MAX_VALUE_MSAT test at the top of update_channel_internal, (d) the timestamp test of the node announcement, (e) the per-channel body of the pruning loop (`scids_to_remove.insert(*scid)` becomes setting a flag); (f) pre_channel_announcement_validation_check with the map lookup replaced by its result as a parameter (R5); (g) verify_channel_announcement / verify_node_announcement whole, with the function-local macros expanded by rule (R8): `secp_verify_sig!(ctx, m, s, k, _)` -> `match ctx.verify_ecdsa(m, s, k) { Ok(_) => {}, Err(_) => return Err(..) }` and `get_pubkey_from_node_id!(n, _)` -> the external_body pubkey_from_node_id(n) with `?`-style early return, `hash_to_message!(message_sha256d_hash(..))` -> an uninterpreted hash of the contents; verify_ecdsa is external_body over the uninterpreted sig_valid; (h) the choice of the signing node of a channel_update (`.as_slice()` dropped, R5); map lookups, storing the new information, removing channels from the node table and the order-independence of the whole graph are dropped and not claimed
+//! trusted: R15 (deep slices): NetworkGraph::update_channel_internal, update_node_from_announcement_intern and remove_stale_channels_and_tracking_with_time work on IndexedMaps behind RwLocks with signature checks through secp256k1; the unit extracts, on every run and verbatim, (a) the body of the closure check_update_latest, (b) the body of the closure check_msg_sanity (its two calls of check_update_latest get the message as an explicit argument), (c) the chain-hash test and the MAX_VALUE_MSAT test at the top of update_channel_internal, (d) the timestamp test of the node announcement, (e) the per-channel body of the pruning loop (`scids_to_remove.insert(*scid)` becomes setting a flag); (f) pre_channel_announcement_validation_check with the map lookup replaced by its result as a parameter (R5); (g) verify_channel_announcement / verify_node_announcement whole, with the function-local macros expanded by rule (R8): `secp_verify_sig!(ctx, m, s, k, _)` -> `match ctx.verify_ecdsa(m, s, k) { Ok(_) => {}, Err(_) => return Err(..) }` and `get_pubkey_from_node_id!(n, _)` -> the external_body pubkey_from_node_id(n) with `?`-style early return, `hash_to_message!(message_sha256d_hash(..))` -> an uninterpreted hash of the contents; verify_ecdsa is external_body over the uninterpreted sig_valid; (h) the choice of the signing node of a channel_update (`.as_slice()` dropped, R5); (i) the replace-or-refuse test of add_channel_between_nodes; map lookups, storing the new information, removing channels from the node table and the order-independence of the whole graph are dropped and not claimed
 //! trusted: env: ChannelInfo {one_to_two, two_to_one, capacity_sats, announcement_received_time}, ChannelUpdateInfo {last_update}, UnsignedChannelUpdate {chain_hash, timestamp, channel_flags, htlc_maximum_msat}, NodeAnnouncementInfo {last_update} are field skeletons; ChainHash is an opaque identity; LightningError loses its text and action (R8)
 use vstd::prelude::*;
 verus! {
@@ -287,6 +287,22 @@ pub struct UpdChannelInfo { pub node_one: NodeId, pub node_two: NodeId }
     if msg.channel_flags & 1 == 1 { channel.node_two.as_slice() } else { channel.node_one.as_slice() }
 //@with
     if msg.channel_flags & 1 == 1 { channel.node_one.as_slice() } else { channel.node_two.as_slice() }
+//@end
+
+// (i) an announcement for a channel we already hold replaces it only when the chain lookup vouched for it; otherwise the first one wins
+pub struct Amount {}
+//@extract lightning/src/routing/gossip.rs :: impl NetworkGraph :: fn add_channel_between_nodes
+//@slice R15
+    IndexedMapEntry::Occupied(mut entry) => { if $c:cond { $rep:any } else { return Err($e); } },
+//@with
+    fn known_channel_is_replaced(utxo_value: Option<Amount>) -> bool { $c }
+//@ret r
+//@ensures P C17 a-second-announcement-replaces-a-known-channel-only-with-a-fresh-on-chain-confirmation-of-its-funding-output
+    r == (utxo_value is Some),
+//@mutant unverified_duplicate_replaces_the_known_channel
+    utxo_value.is_some()
+//@with
+    utxo_value.is_none()
 //@end
 }
 fn main() {}
